@@ -3,12 +3,17 @@
 //	gvh_c07 sites <dir>   every place in the non-test Go files of <dir> that emits a value copy:
 //	                      a string literal containing "$clone(" or ".copy(", or a call of
 //	                      translateImplicitConversionWithCloning; one line `file<TAB>func<TAB>what<TAB>line`.
+//	                      For translateAssign additionally the DECISION "copy in place vs rebind": every return
+//	                      statement that precedes the `.copy(` emission, with the chain of conditions guarding it
+//	                      (`what` = "return-before-copy: <conds> => <format string>"), and the guards of `.copy(` itself.
 package main
 
 import (
+	"bytes"
 	"fmt"
 	"go/ast"
 	"go/parser"
+	"go/printer"
 	"go/token"
 	"os"
 	"path/filepath"
@@ -42,6 +47,9 @@ func main() {
 			if !ok || fd.Body == nil {
 				continue
 			}
+			if fd.Name.Name == "translateAssign" {
+				assignDecision(fset, filepath.Base(name), fd)
+			}
 			ast.Inspect(fd.Body, func(n ast.Node) bool {
 				switch x := n.(type) {
 				case *ast.BasicLit:
@@ -61,4 +69,89 @@ func main() {
 			})
 		}
 	}
+}
+
+func src(fset *token.FileSet, n ast.Node) string {
+	var b bytes.Buffer
+	printer.Fprint(&b, fset, n)
+	return strings.Join(strings.Fields(b.String()), " ")
+}
+
+// assignDecision prints, for translateAssign, the guarded returns that come before the in-place `T.copy(dst, src)`
+// emission and the guards of that emission.
+func assignDecision(fset *token.FileSet, file string, fd *ast.FuncDecl) {
+	var copyPos token.Pos
+	ast.Inspect(fd.Body, func(n ast.Node) bool {
+		if x, ok := n.(*ast.BasicLit); ok && x.Kind == token.STRING && strings.Contains(x.Value, ".copy(") && copyPos == 0 {
+			copyPos = x.Pos()
+		}
+		return true
+	})
+	if copyPos == 0 {
+		fmt.Printf("%s\t%s\tno-in-place-copy\t0\n", file, fd.Name.Name)
+		return
+	}
+	var walk func(n ast.Node, conds []string)
+	walk = func(n ast.Node, conds []string) {
+		switch x := n.(type) {
+		case nil:
+			return
+		case *ast.BlockStmt:
+			for _, st := range x.List {
+				walk(st, conds)
+			}
+		case *ast.IfStmt:
+			c := src(fset, x.Cond)
+			if x.Init != nil {
+				c = src(fset, x.Init) + "; " + c
+			}
+			walk(x.Body, append(append([]string{}, conds...), c))
+			if x.Else != nil {
+				walk(x.Else, append(append([]string{}, conds...), "!("+c+")"))
+			}
+		case *ast.SwitchStmt:
+			tag := ""
+			if x.Tag != nil {
+				tag = src(fset, x.Tag)
+			}
+			for _, cc := range x.Body.List {
+				cl := cc.(*ast.CaseClause)
+				var ls []string
+				for _, e := range cl.List {
+					ls = append(ls, src(fset, e))
+				}
+				c := "switch " + tag + " case " + strings.Join(ls, ",")
+				for _, st := range cl.Body {
+					walk(st, append(append([]string{}, conds...), c))
+				}
+			}
+		case *ast.TypeSwitchStmt:
+			tag := src(fset, x.Assign)
+			for _, cc := range x.Body.List {
+				cl := cc.(*ast.CaseClause)
+				var ls []string
+				for _, e := range cl.List {
+					ls = append(ls, src(fset, e))
+				}
+				c := "switch " + tag + " case " + strings.Join(ls, ",")
+				for _, st := range cl.Body {
+					walk(st, append(append([]string{}, conds...), c))
+				}
+			}
+		case *ast.ReturnStmt:
+			format := ""
+			ast.Inspect(x, func(m ast.Node) bool {
+				if l, ok := m.(*ast.BasicLit); ok && l.Kind == token.STRING && format == "" {
+					format = l.Value
+				}
+				return true
+			})
+			if x.Pos() < copyPos {
+				fmt.Printf("%s\t%s\treturn-before-copy: %s => %s\t%d\n", file, fd.Name.Name, strings.Join(conds, " && "), format, fset.Position(x.Pos()).Line)
+			} else if x.Pos() <= copyPos && copyPos <= x.End() {
+				fmt.Printf("%s\t%s\tcopy-guards: %s\t%d\n", file, fd.Name.Name, strings.Join(conds, " && "), fset.Position(x.Pos()).Line)
+			}
+		}
+	}
+	walk(fd.Body, nil)
 }
